@@ -6,6 +6,7 @@
    `combineSummaryNumbers/splitSummaryNumber`).
 -/
 import OpmVerif.Model.EclBin
+import OpmVerif.Gen.ESmrySeek
 
 namespace OpmVerif.Smry
 open OpmVerif.Ecl
@@ -14,9 +15,7 @@ open OpmVerif.Ecl
 
 /-- `ESmry::loadData(vectList)`, unformatted branch: offset of element `p` relative to the
 first byte of the PARAMS data (`stepFilePos`). -/
-def elementPosBin (p : Nat) : Nat :=
-  let nFullBlocks := p / (Gen.EclIO.MaxBlockSizeReal / Gen.EclIO.sizeOfReal)
-  ((2 * nFullBlocks) + 1) * Gen.EclIO.sizeOfInte + p * Gen.EclIO.sizeOfReal
+def elementPosBin (p : Nat) : Nat := Gen.ESmrySeek.binPos p   -- regenerated from ESmry.cpp every run
 
 /-! ### Formatted arrays: `writeFormattedArray` as a function of the already rendered fields -/
 
@@ -36,13 +35,7 @@ def fmtRealArray (fields : List (List Char)) : List Char :=
 
 /-- `ESmry::loadData(vectList)`, formatted branch: offset of the field of element `p`
 relative to `stepFilePos`. -/
-def elementPosFmt (p : Nat) : Nat :=
-  let nBlocks := p / Gen.EclIO.MaxBlockSizeReal
-  let sizeOfLastBlock := p % Gen.EclIO.MaxBlockSizeReal
-  let nLinesBlock := Gen.EclIO.MaxBlockSizeReal / Gen.EclIO.numColumnsReal
-  let blockSize := Gen.EclIO.MaxNumBlockReal * Gen.EclIO.numColumnsReal * Gen.EclIO.columnWidthReal + nLinesBlock
-  let nLines := sizeOfLastBlock / Gen.EclIO.numColumnsReal
-  (if nBlocks > 0 then nBlocks * blockSize else 0) + (sizeOfLastBlock * Gen.EclIO.columnWidthReal + nLines)
+def elementPosFmt (p : Nat) : Nat := Gen.ESmrySeek.fmtPos p   -- regenerated from ESmry.cpp every run
 
 /-! ### `combineSummaryNumbers` / `splitSummaryNumber` (C++ `int` arithmetic, truncating) -/
 
